@@ -113,6 +113,10 @@ class ShardResult:
         self.harness_error = self.harness_error or o.harness_error
 
 
+class _Done(Exception):
+    pass
+
+
 MAX_BUCKETS = 4
 SHRINK_SECONDS = {"quick": 25, "thorough": 60}
 
@@ -179,6 +183,17 @@ def run_shard(check_mod, part_index, tier, seed, shard, excluded_names):
                         res.violations.append(dict(part=part.name, msg=v.msg, sig=v.sig, case=case, details=v.details))
 
         seen_sigs = set(v["sig"] for v in res.violations)
+        if hasattr(part, "custom_search"):
+            # the part drives Hypothesis itself (rule-based state machines for histories)
+            for rnd in range(MAX_BUCKETS):
+                v = part.custom_search(tier, _derive_seed(seed, shard, rnd, part.name), res, deadline, seen_sigs)
+                if v is None:
+                    break
+                seen_sigs.add(v.sig)
+                res.violations.append(dict(part=part.name, msg=v.msg, sig=v.sig, case=v.case, details=v.details))
+                if time.time() > deadline:
+                    break
+            raise _Done()
         for rnd in range(MAX_BUCKETS):
             failed = {}
             first_fail = [None]
@@ -223,6 +238,8 @@ def run_shard(check_mod, part_index, tier, seed, shard, excluded_names):
                     break
                 continue
             break
+    except _Done:
+        pass
     except Exception:
         res.harness_error = traceback.format_exc()
     finally:
